@@ -1508,7 +1508,26 @@ pub trait QueryBuilder:
         if right_paren {
             write!(sql, "(").unwrap();
         }
-        self.prepare_simple_expr(right, sql);
+        if let (true, SimpleExpr::Binary(low, _, high)) = (drop_right_between_hack, right) {
+            // The bounds are operands of BETWEEN, not of a logical AND:
+            // parenthesize them by the precedence of BETWEEN.
+            for (i, bound) in [low, high].into_iter().enumerate() {
+                if i > 0 {
+                    write!(sql, " AND ").unwrap();
+                }
+                let bound_paren =
+                    !self.inner_expr_well_known_greater_precedence(bound, &op_as_oper);
+                if bound_paren {
+                    write!(sql, "(").unwrap();
+                }
+                self.prepare_simple_expr(bound, sql);
+                if bound_paren {
+                    write!(sql, ")").unwrap();
+                }
+            }
+        } else {
+            self.prepare_simple_expr(right, sql);
+        }
         if right_paren {
             write!(sql, ")").unwrap();
         }
